@@ -1996,15 +1996,19 @@ namespace
     }
     value throw_any(runtime& runtime, value::cref right)
     {
-        auto res = std::find_if(runtime.context_active().frames_rbegin(), runtime.context_active().frames_rend(), [&](frame& f) -> bool {
-            return f.can_recover_runtime_error();
-            });
-        if (res == runtime.context_active().frames_rend())
+        // The nearest frame that takes the exception gets it; a frame that declines (a catch block that is already
+        // running, a handler that was used up) is passed over like any other frame on the way out.
+        auto search_from = runtime.context_active().frames_rbegin();
+        while (true)
         {
-            runtime.__logmsg(err::ErrorMessage(runtime.context_active().current_frame().diag_info_from_position(), "THROW", right.data()->to_string_sqf()));
-        }
-        else
-        {
+            auto res = std::find_if(search_from, runtime.context_active().frames_rend(), [&](frame& f) -> bool {
+                return f.can_recover_runtime_error();
+                });
+            if (res == runtime.context_active().frames_rend())
+            {
+                runtime.__logmsg(err::ErrorMessage(runtime.context_active().current_frame().diag_info_from_position(), "THROW", right.data()->to_string_sqf()));
+                return {};
+            }
             std::vector<sqf::runtime::frame> stacktrace_frames(runtime.context_active().frames_rbegin(), runtime.context_active().frames_rend());
             sqf::runtime::diagnostics::stacktrace stacktrace(stacktrace_frames);
             stacktrace.value = right;
@@ -2016,8 +2020,8 @@ namespace
                 {
                     runtime.context_active().pop_value();
                 }
-                runtime.__logmsg(err::ErrorMessage(runtime.context_active().current_frame().diag_info_from_position(), "THROW", right.data()->to_string_sqf()));
-                return {};
+                search_from = res + 1;
+                continue;
             }
 
             auto drop = res - runtime.context_active().frames_rbegin();
@@ -2025,8 +2029,8 @@ namespace
             {
                 runtime.context_active().pop_frame();
             }
+            return {};
         }
-        return {};
     }
     value throw_if_any(runtime& runtime, value::cref left, value::cref right)
     {
@@ -2046,17 +2050,19 @@ namespace
         {
         private:
             instruction_set m_set;
+            bool m_exchanged;
         public:
-            behavior_catch_exit(instruction_set set) : m_set(set) {}
+            behavior_catch_exit(instruction_set set) : m_set(set), m_exchanged(false) {}
             virtual sqf::runtime::instruction_set get_instruction_set(sqf::runtime::frame& frame) override { return m_set; };
             virtual result enact(sqf::runtime::runtime& runtime, sqf::runtime::frame& frame) override
             {
-                if (runtime.__runtime_error())
-                {
+                if (runtime.__runtime_error() || m_exchanged)
+                { // only what is thrown inside the try block is caught here; the catch block itself is outside of it
                     return result::fail;
                 }
                 else
                 {
+                    m_exchanged = true;
                     auto val = runtime.context_active().pop_value();
                     runtime.context_active().clear_values();
                     frame.clear_value_scope();
